@@ -5,12 +5,10 @@ _predict_fixed_cutoff, _predict_in_sample → CutoffSplitter(fh=1) → _predict_
 update(update_params=False) → _get_last_window), for a series with contiguous integer labels
 `origin, origin+1, …`.  Import-free apart from the shared horizon model.
 
-Values are `Option Rat`, `none` = NaN.  The model follows the code as it is, including
-* the seasonal `mean` padding the window at the END before reshaping (columns are therefore aligned with
-  the window START, not with the cutoff, when `window_length % sp ≠ 0`),
-* the reshape to `(ceil(window_length_/sp), sp)` using the FITTED window length, which raises for a
-  window truncated at the start of the series (in-sample steps),
-* the drift slope divided by `window_length_ - 1` whatever the number of observations in the window.
+Values are `Option Rat`, `none` = NaN.  The model follows the code as it is after the fixes ab76aa2 (seasonal
+`mean`: the window is padded with NaN at the FRONT up to a multiple of `sp`, by the number of observations actually
+in the window, and reshaped to `(-1, sp)`) and 3f305b4 (drift: slope divided by `len(last_window) - 1`; a window
+with a single observation gives 0.0/0 = NaN).
 -/
 import SkVerif.Model.FH
 namespace SkVerif.Naive
@@ -119,21 +117,21 @@ def predictLastWindow (st : Strategy) (sp wl : Nat) (w : List Val) (fh : List In
   | .mean =>
     if sp = 1 then .ok (fh.map (fun _ => nanmean w))
     else
-      let rem := wl % sp
+      let rem := w.length % sp                                  -- len(last_window) % sp_
       let pad := if rem > 0 then sp - rem else 0
-      let padded := w ++ List.replicate pad none                -- np.hstack([last_window, full(pad, nan)])
-      let rows := (wl + sp - 1) / sp                            -- int(np.ceil(window_length_ / sp_))
-      if padded.length ≠ rows * sp then .error .value           -- reshape: size mismatch
-      else
-        let cols := (List.range sp).map (fun k => nanmean (column padded rows sp k))
-        let cols' := tileIfNeeded sp fhLast cols
-        mapE (fun h => npGet cols' (h - 1)) fh
+      let padded := List.replicate pad none ++ w                -- np.hstack([full(pad, nan), last_window])
+      let rows := padded.length / sp                            -- reshape(-1, sp_)
+      let cols := (List.range sp).map (fun k => nanmean (column padded rows sp k))
+      let cols' := tileIfNeeded sp fhLast cols
+      mapE (fun h => npGet cols' (h - 1)) fh
   | .drift =>
     if wl ≠ 1 then
       match w.head?, w.getLast? with
       | some (some a), some (some b) =>
-        let slope := (b - a) / (((wl : Int) - 1 : Int) : Rat)
-        .ok (fh.map (fun h => some (b + (((h - 1 + 1 : Int)) : Rat) * slope)))
+        if w.length = 1 then .ok (fh.map (fun _ => none))       -- 0.0 / 0 = nan (numpy float division)
+        else
+          let slope := (b - a) / ((((w.length : Int) - 1 : Int)) : Rat)   -- len(last_window) - 1
+          .ok (fh.map (fun h => some (b + (((h - 1 + 1 : Int)) : Rat) * slope)))
       | _, _ => .error .value                                   -- first/last of the window missing
     else .ok (fh.map (fun _ => none))                           -- method returns None → Series of NaN
   | .other => .error .value
